@@ -60,6 +60,7 @@ def plan(tier, seed):
     for a in range(len(TOKENS)):
         sh.append(['tok', a, 4 if tier == 'quick' else 5])
     sh.append(['short'])
+    sh.append(['deep'])
     for i in range(32):
         sh.append(['chars', i, 32])
     sh.append(['cross'])
@@ -77,23 +78,28 @@ def plan(tier, seed):
 def judge(logic, text, acc, toks=None, want_nontrivial=None):
     """Feed text to logic's parser and apply the oracle.  Returns True if accepted."""
     P = parser(logic)
-    res = call(P, text)
-    case = {'logic': logic, 'text': text}
+    case = {'logic': logic, 'text': text if len(text) < 400 else text[:60] + '...(%d chars)' % len(text)}
+    exc = None
+    try:
+        res = ('ok', P(text))
+    except Exception as e:   # noqa
+        exc = e
+        res = ('exc', type(e).__name__, str(e)[:200])
     if res[0] == 'exc':
         if res[1] not in ('UnexpectedToken', 'UnexpectedCharacters'):
             acc.violation('foreign-exception', case, 'UnexpectedToken/UnexpectedCharacters', res[1:])
             return False
-        # class and position of the real exception object
-        try:
-            P(text)
-        except Exception as e:   # noqa
-            ok_cls = isinstance(e, (base_parser.UnexpectedToken, base_parser.UnexpectedCharacters))
-            pos = getattr(e, 'pos', None)
-            if not ok_cls:
-                acc.violation('foreign-exception', case, 'pyModelChecking.parser.ParserError subclass',
-                              type(e).__module__ + '.' + type(e).__name__)
-            elif not isinstance(pos, int) or isinstance(pos, bool) or not (0 <= pos <= len(text)):
-                acc.violation('position-outside-input', case, '0..%d' % len(text), repr(pos))
+        ok_cls = isinstance(exc, (base_parser.UnexpectedToken, base_parser.UnexpectedCharacters))
+        pos = getattr(exc, 'pos', None)
+        if not ok_cls:
+            acc.violation('foreign-exception', case, 'pyModelChecking.parser.ParserError subclass',
+                          type(exc).__module__ + '.' + type(exc).__name__)
+        elif not isinstance(pos, int) or isinstance(pos, bool) or not (0 <= pos <= len(text)):
+            acc.violation('position-outside-input', case, '0..%d' % len(text), repr(pos))
+        # a rejected string stays rejected when the caller tries the same parser again
+        r2 = call(P, text)
+        if not (r2[0] == 'exc' and r2[1] == res[1]):
+            acc.violation('accepted-after-rejection', case, res[1], r2[:2] if r2[0] == 'exc' else 'returned ' + repr(r2[1])[:60])
         return False
     obj = res[1]
     r = call(lib.read, obj)
@@ -156,6 +162,26 @@ def run_shard(shard, tier, seed, acc):
         gen = ((first,) + rest for i, rest in enumerate(itertools.product(TOKENS, repeat=L - 1))
                if i % nb == block)
         run_strings(gen, acc)
+        return
+    if kind == 'deep':
+        # long / deeply nested inputs: valid ones must parse (to a tree of the right depth), invalid ones
+        # must be rejected with a ParserError - never RecursionError
+        for depth in (50, 300, 1200):
+            cases = [('(p and ' * depth + 'q' + ')' * depth, True), ('not ' * depth + 'p', True),
+                     ('(' * depth + 'p' + ')' * depth, True), ('(p and ' * depth + 'q' + ')' * (depth - 1), False),
+                     (' and '.join(['p'] * depth), True), ('(p --> ' * depth + 'q' + ')' * depth, True)]
+            for text, valid in cases:
+                for logic in LOGICS:
+                    P = parser(logic)
+                    r = call(P, text)
+                    acc.ev(1, 1)
+                    case = {'logic': logic, 'text': text[:40] + '...(%d chars)' % len(text), 'deep': depth}
+                    if valid and r[0] != 'ok':
+                        if r[1] not in ('UnexpectedToken', 'UnexpectedCharacters'):
+                            acc.violation('foreign-exception', case, 'formula', r[1:])
+                    elif not valid and not (r[0] == 'exc' and r[1] in ('UnexpectedToken', 'UnexpectedCharacters')):
+                        acc.violation('foreign-exception' if r[0] == 'exc' else 'accepted-string-outside-grammar',
+                                      case, 'ParserError', r[1:] if r[0] == 'exc' else 'accepted')
         return
     if kind == 'short':
         for text in ['', ' ', '\n', ' \t ', '\t\n ', '()', '( )', '"', '""', '"p"', '"p q"', 'A', '(',
@@ -255,5 +281,9 @@ def replay(art):
     from ..runner import Acc
     c = art['case']
     acc = Acc()
+    if c.get('deep') or '...(' in c['text']:
+        run_shard(['deep'], 'quick', 0, acc)
+        run_shard(['short'], 'quick', 0, acc)
+        return {'violates': acc.d['nviol'] > 0, 'detail': acc.d['violations'][:1]}
     judge(c['logic'], c['text'], acc)
     return {'violates': acc.d['nviol'] > 0, 'detail': acc.d['violations'][:1]}
